@@ -100,3 +100,18 @@
 (assert (forall ((m BSeq) (k BSeq)) (! (and (= (qval (qdec (qenc m)) k) (qval m k)) (= (qhas (qdec (qenc m)) k) (qhas m k))) :pattern ((qval (qdec (qenc m)) k)) :pattern ((qhas (qdec (qenc m)) k)))))
 (define-fun qget ((s BSeq) (k BSeq)) BSeq (qval (qdec s) k))
 (declare-fun pesc (BSeq) BSeq)
+
+; ---- syscall/js vocabulary (uninterpreted readings of a JavaScript value) ----
+(declare-fun jstype (Int) Int)
+(declare-fun jsint (Int) Int)
+(declare-fun jsstring (Int) BSeq)
+(declare-fun jsbool (Int) Bool)
+(declare-fun jsfuncid (Int) Int)
+; fill(c, n): n copies of byte c
+(declare-fun fill (Int Int) BSeq)
+(assert (forall ((c Int) (n Int)) (! (=> (>= n 0) (= (len (fill c n)) n)) :pattern ((fill c n)))))
+(assert (forall ((c Int) (n Int) (k Int)) (! (= (at (fill c n) k) c) :pattern ((at (fill c n) k)))))
+; decimal numerals (assumed fact about strconv.FormatUint, a property of decimal notation):
+; for 0 <= v < 10^d, left-padding dec(v) with '0' to d characters gives the d decimal digits of v
+(assert (forall ((v Int) (d Int)) (! (=> (and (<= 1 d) (<= d 19) (<= 0 v) (< v (pow10 d)))
+   (and (<= 1 (len (dec v))) (<= (len (dec v)) d) (= (cat (fill 48 (- d (len (dec v)))) (dec v)) (fmtdec v d)))) :pattern ((fmtdec v d) (dec v)))))
